@@ -6,6 +6,7 @@ CONSTANTS
   MaxDepth = 1
   FixedLines = TRUE
   FixedFwd = TRUE
+  KSecondFull = FALSE
   PosMaxLines = 4
   NodesHavePos = TRUE
   DevOn = {"byte"}
